@@ -132,3 +132,19 @@ Theorem C20_outside_legacy_refuted :
   outside_after false link_world ext_example = ext_example.
 Proof. exact outside_legacy_refuted. Qed.
 Print Assumptions C20_outside_legacy_refuted.
+
+(* Mixed histories: `record -d DIR`, `record --host H -d DIR` and live-mode runs on the same name, in ANY order and
+   number: a foreign DIR stays exactly as it is (and so does DIR.old), a foreign DIR.old stays exactly as it is. *)
+Theorem C20_mixed_history_foreign_dir : forall cs w, foreign (dir w) = true -> history w cs = w.
+Proof. exact mixed_foreign_dir_forever. Qed.
+Print Assumptions C20_mixed_history_foreign_dir.
+Theorem C20_mixed_history_foreign_old : forall cs w, foreign (old w) = true -> old (history w cs) = old w.
+Proof. exact mixed_foreign_old_forever. Qed.
+Print Assumptions C20_mixed_history_foreign_old.
+Theorem C20_mixed_history_example :
+  foreign (old w_mixed) = true /\
+  history w_mixed [CLive r0; CRecord r0; CHost r0; CRecord r0] = {| dir := fresh []; old := Some notes |} /\
+  history w_mixed [CLive r0; CHost r0] = w_mixed /\
+  history {| dir := None; old := None |} [CRecord r0; CLive r0; CHost r0; CRecord r0] = {| dir := fresh []; old := fresh [] |}.
+Proof. exact mixed_example. Qed.
+Print Assumptions C20_mixed_history_example.
